@@ -7,7 +7,7 @@
    the int64_t arithmetic of the C++ statement by statement (`j >= 0`, `(n-1) >> 1`, `hi >> 2`, ...;
    counts are far below 2^62 so int64_t never wraps).  Every C++ loop is a recursion on a fuel that
    is at least the number of iterations the loop can make before it leaves the array; running out
-   of fuel is `Hang` (SortProofs.v shows that it never happens).
+   of fuel is `Hang` (SortProofs.v: with an irreflexive comparator the result is always `Ok`).
    `lt` is the C++ comparator `sorted(a, b)`. *)
 Require Import Base Generated.
 Local Open Scope Z_scope.
